@@ -361,6 +361,9 @@ def run(ctx):
         mismatching_events=n_mm, known_finding_probe_mismatches=kf_mm, crashes_in_seeded_histories=crashes,
         corpus_files=n_corpus, harness_runs=R.n,
     )
+    if not ctx.violations:
+        import shutil
+        shutil.rmtree(wd, ignore_errors=True)       # journals are large; keep them only when something failed
     ctx.assumptions += [
         "CO_Tree::rebalance / redistribute_elements_in_subtree / compact_elements_in_the_rightmost_end are validated "
         "through OK(), contents and the density clauses after every step, not transliterated",
